@@ -672,5 +672,21 @@ def module_term(prog: Program, mod: Module, name: str) -> tuple:
     return Evaluator(prog, mod).expr(mod.assigns[name], {})
 
 
+def handler_names(event) -> list[str] | None:
+    """Exception class names of a `suppressed` (contextlib.suppress) or `caught` (except clause) event."""
+    if event[0] == "suppressed":
+        return [T.refname(a) or T.show(a) for a in event[1][2]]
+    if event[0] == "caught":
+        t0 = event[1]
+        items = t0[1] if t0[0] == "tuple" else (t0,)
+        return [T.refname(a) or T.show(a) for a in items]
+    return None
+
+
+def abandoned(p: Path) -> list[list[str]]:
+    """For each attempt on this path that was abandoned into a handler: the handler's exception names."""
+    return [n for n in (handler_names(e) for e in p.events) if n is not None]
+
+
 def returns(paths: list[Path]) -> list[tuple[Path, tuple]]:
     return [(p, p.exit[1]) for p in paths if p.exit[0] == "return"]
